@@ -168,20 +168,23 @@ pub fn verif_bulk_frames(v: Vec<Vec<u8>>) -> (r: Vec<RespFrame>)
 { v.into_iter().map(|e| RespFrame::from_bytes(e)).collect() }
 
 // ---- key-space and TTL-aware methods (used by the server.rs handler units); same status: ASSUMED CONTRACTS summarising shard_core
-pub uninterp spec fn remaining_ns(m: EngineModel, db: int, k: Seq<u8>) -> int;
+/// the only reason a write of a string value is refused by the engine: the memory limit (MemoryManager::add_memory == false)
+pub uninterp spec fn mem_exhausted_s(ds: DS, ttl: Map<(int, Seq<u8>), int>) -> bool;
+pub open spec fn mem_exhausted(m: EngineModel) -> bool { mem_exhausted_s(m.ds@, m.ttl@) }
+pub uninterp spec fn remaining_ns_s(ds: DS, ttl: Map<(int, Seq<u8>), int>, db: int, k: Seq<u8>) -> int;
+pub open spec fn remaining_ns(m: EngineModel, db: int, k: Seq<u8>) -> int { remaining_ns_s(m.ds@, m.ttl@, db, k) }
 pub open spec fn res_i64(r: Result<i64>, rv: RV) -> bool {
     match rv { RV::Int(n) => r matches Ok(v) && v == n, RV::WrongType => r matches Err(e) && e == wt(), RV::OtherErr => r matches Err(e) && e != wt(), _ => false }
 }
 impl EngineModel {
     #[verifier::external_body]
     pub fn exists(&mut self, db: usize, key: &[u8]) -> (r: Result<bool>)
-        ensures final(self).ds@ == old(self).ds@, final(self).ttl@ == old(self).ttl@, r matches Ok(b) ==> b == old(self).ds@.contains_key((db as int, key@)),
+        ensures r is Ok, final(self).ds@ == old(self).ds@, final(self).ttl@ == old(self).ttl@, r matches Ok(b) ==> b == old(self).ds@.contains_key((db as int, key@)),
     { unimplemented!() }
     #[verifier::external_body]
     pub fn delete(&mut self, db: usize, key: &[u8]) -> (r: Result<bool>)
-        ensures
+        ensures r is Ok,
             r matches Ok(b) ==> b == old(self).ds@.contains_key((db as int, key@)) && final(self).ds@ == old(self).ds@.remove((db as int, key@)) && final(self).ttl@ == old(self).ttl@.remove((db as int, key@)),
-            r is Err ==> final(self).ds@ == old(self).ds@ && final(self).ttl@ == old(self).ttl@,
     { unimplemented!() }
     #[verifier::external_body]
     pub fn incr_by(&mut self, db: usize, key: Vec<u8>, increment: i64) -> (r: Result<i64>)
@@ -196,17 +199,18 @@ impl EngineModel {
     #[verifier::external_body]
     pub fn set_string_t(&mut self, db: usize, key: Vec<u8>, value: Vec<u8>) -> (r: Result<()>)
         ensures r is Ok ==> final(self).ds@ == old(self).ds@.insert((db as int, key@), DV::Str(value@)) && final(self).ttl@ == old(self).ttl@.remove((db as int, key@)),
-            r is Err ==> final(self).ds@ == old(self).ds@ && final(self).ttl@ == old(self).ttl@,
+            r is Err ==> mem_exhausted(*old(self)) && final(self).ds@ == old(self).ds@ && final(self).ttl@ == old(self).ttl@,
     { unimplemented!() }
     #[verifier::external_body]
     pub fn set_string_ex(&mut self, db: usize, key: Vec<u8>, value: Vec<u8>, expires_in: Duration) -> (r: Result<()>)
         ensures r is Ok ==> final(self).ds@ == old(self).ds@.insert((db as int, key@), DV::Str(value@)) && final(self).ttl@ == old(self).ttl@.insert((db as int, key@), dur_nanos(expires_in)),
-            r is Err ==> final(self).ds@ == old(self).ds@ && final(self).ttl@ == old(self).ttl@,
+            r is Err ==> mem_exhausted(*old(self)) && final(self).ds@ == old(self).ds@ && final(self).ttl@ == old(self).ttl@,
     { unimplemented!() }
     #[verifier::external_body]
     pub fn set_string_nx(&mut self, db: usize, key: Vec<u8>, value: Vec<u8>) -> (r: Result<bool>)
         ensures
             r matches Ok(b) ==> b == !old(self).ds@.contains_key((db as int, key@)),
+            r is Err ==> mem_exhausted(*old(self)),
             r == Ok::<bool, FerrousError>(true) ==> final(self).ds@ == old(self).ds@.insert((db as int, key@), DV::Str(value@)) && final(self).ttl@ == old(self).ttl@.remove((db as int, key@)),
             !(r == Ok::<bool, FerrousError>(true)) ==> final(self).ds@ == old(self).ds@ && final(self).ttl@ == old(self).ttl@,
     { unimplemented!() }
@@ -214,19 +218,20 @@ impl EngineModel {
     pub fn set_string_nx_ex(&mut self, db: usize, key: Vec<u8>, value: Vec<u8>, expires_in: Duration) -> (r: Result<bool>)
         ensures
             r matches Ok(b) ==> b == !old(self).ds@.contains_key((db as int, key@)),
+            r is Err ==> mem_exhausted(*old(self)),
             r == Ok::<bool, FerrousError>(true) ==> final(self).ds@ == old(self).ds@.insert((db as int, key@), DV::Str(value@)) && final(self).ttl@ == old(self).ttl@.insert((db as int, key@), dur_nanos(expires_in)),
             !(r == Ok::<bool, FerrousError>(true)) ==> final(self).ds@ == old(self).ds@ && final(self).ttl@ == old(self).ttl@,
     { unimplemented!() }
     #[verifier::external_body]
     pub fn expire(&mut self, db: usize, key: &[u8], expires_in: Duration) -> (r: Result<bool>)
-        ensures final(self).ds@ == old(self).ds@,
+        ensures r is Ok, final(self).ds@ == old(self).ds@,
             r matches Ok(b) ==> b == old(self).ds@.contains_key((db as int, key@)) && final(self).ttl@ == (if b { old(self).ttl@.insert((db as int, key@), dur_nanos(expires_in)) } else { old(self).ttl@ }),
             r is Err ==> final(self).ttl@ == old(self).ttl@,
     { unimplemented!() }
     /// remaining time: Some exactly for a present key that carries a TTL (how much remains is the engine's, C02 `ttl` unit)
     #[verifier::external_body]
     pub fn ttl(&mut self, db: usize, key: &[u8]) -> (r: Result<Option<Duration>>)
-        ensures final(self).ds@ == old(self).ds@, final(self).ttl@ == old(self).ttl@,
+        ensures r is Ok, final(self).ds@ == old(self).ds@, final(self).ttl@ == old(self).ttl@,
             r matches Ok(o) ==> (o is Some) == (old(self).ds@.contains_key((db as int, key@)) && old(self).ttl@.contains_key((db as int, key@))),
             // the time that remains is a function of the engine state and the clock (uninterpreted here; exact in C02's `ttl` unit);
             // a difference of two Instants: far below the u64 range of whole seconds
